@@ -93,6 +93,10 @@ func genComputeCases(r *Rng, tier string, forC02 bool) []*Case {
 			}
 		}
 		c, p, kind := randGraph(r, n)
+		for !forC02 && kind == "subnormal" {
+			// C01's exact rational certificate is too slow on 2^-1074-scale weights; C02/C05/C06/C18 use them
+			c, p, kind = randGraph(r, n)
+		}
 		cc, pc, err := canonInputs(c, p)
 		if err != nil {
 			continue
